@@ -177,7 +177,15 @@ func (k Keeper) EscrowReporterStake(ctx context.Context, reporterAddr sdk.AccAdd
 		return err
 	}
 
-	totalTokens := layertypes.PowerReduction.MulRaw(int64(power))
+	// the shares are taken in proportion to what backed the report: the sum of the snapshot's origins, which exceeds
+	// power * 10^6 by the part of the stake that is not a whole token
+	totalTokens := math.ZeroInt()
+	for _, del := range report.TokenOrigins {
+		totalTokens = totalTokens.Add(del.Amount)
+	}
+	if !totalTokens.IsPositive() {
+		totalTokens = layertypes.PowerReduction.MulRaw(int64(power))
+	}
 	disputeTokens := make([]*types.TokenOriginInfo, 0)
 	leftover := amt
 	// loop through the selectors' tokens (validator, amount) that were part of the report and remove tokens from relevant delegations
